@@ -879,6 +879,40 @@ theorem run_forward (A : List Arg) : ∀ (cs : List Char) (mode : Mode) (st : DS
         exact key m' st' h1 h2 h3 h4 h5 h6 hr
 
 
+/-! ### shape of the layout -/
+
+section
+open List
+
+/-- sign-less, unpadded part of the C99 layout: base prefix, precision zeros / octal 0, digits -/
+def layoutBody (f : Flags) (prec : Option Nat) (base : Nat) (upper : Bool) (mag : Nat) : List Char :=
+  let ds0 := if mag = 0 ∧ prec.getD 1 = 0 then [] else natDigits base upper mag
+  let ds1 := List.replicate (prec.getD 1 - ds0.length) '0' ++ ds0
+  let ds := if f.hash ∧ base = 8 ∧ ds1.head? ≠ some '0' then '0' :: ds1 else ds1
+  let pre := if f.hash ∧ base = 16 ∧ mag ≠ 0 then (if upper then ['0', 'X'] else ['0', 'x']) else []
+  pre ++ ds
+
+theorem layoutCore_length (f : Flags) (width : Nat) (prec : Option Nat) (base : Nat) (upper : Bool)
+    (sign : List Char) (mag : Nat) :
+    (layoutCore f width prec base upper sign mag).length =
+      max width (sign.length + (layoutBody f prec base upper mag).length) ∧
+    (width ≤ sign.length + (layoutBody f prec base upper mag).length →
+      layoutCore f width prec base upper sign mag = sign ++ layoutBody f prec base upper mag) := by
+  unfold layoutCore layoutFrom layoutBody
+  simp only
+  generalize (if mag = 0 ∧ prec.getD 1 = 0 then [] else natDigits base upper mag) = ds0
+  generalize (if f.hash = true ∧ base = 8 ∧ (replicate (prec.getD 1 - ds0.length) '0' ++ ds0).head? ≠ some '0'
+    then '0' :: (replicate (prec.getD 1 - ds0.length) '0' ++ ds0) else replicate (prec.getD 1 - ds0.length) '0' ++ ds0) = ds
+  generalize (if f.hash = true ∧ base = 16 ∧ mag ≠ 0 then (if upper = true then ['0', 'X'] else ['0', 'x']) else []) = pre
+  constructor
+  · split_ifs <;> simp only [length_append, length_replicate] <;> omega
+  · intro h
+    have : width - (sign.length + pre.length + ds.length) = 0 := by simp only [length_append] at h; omega
+    rw [this]
+    split_ifs <;> simp
+
+end
+
 end Mpir.Printf
 
 namespace Mpir.Scanf
